@@ -168,15 +168,15 @@ CLAIMS = {
         design_ref='5/C19',
         note='The family specification Model/TechlibSpec.v is trusted. Sequential, tristate, clock-gating, isolation, decoder, filler and tie cells get the pin theorems only.'),
     'C10': dict(
-        technique='Coq proofs over the circuit-edit model: view of every reachable circuit is a well-formed netlist; copy/pickle preserve the pin-equivalent view, names and every solution; fork elimination preserves the function (id-based semantics, both directions) and the interface set; machine-checked witness for the state-order defect; view / s_names correspondence on edit histories; differential truth tables; all library cell definitions',
-        text='Proof (copy, pickle, fork elimination full; substitute / resolve: invariant proved under C09, function by exhaustive library theorems where integrated and differential tests). '
+        technique='Coq proofs over the circuit-edit model: exhaustive resolve theorems for all cells of the five libraries; view of every reachable circuit is a well-formed netlist; copy/pickle preserve the pin-equivalent view, names and every solution; fork elimination preserves the function (id-based semantics, both directions) and the interface set; machine-checked witness for the state-order defect; view / s_names correspondence on edit histories; differential truth tables; all library cell definitions',
+        text='Proof (copy, pickle, fork elimination full; library clause full by exhaustive evaluation; substitute on arbitrary implementations: graph invariant proved under C09, function by differential tests). '
              'BRIDGE: for every circuit reachable by an edit history the netlist view (what the simulators read) is a well-formed netlist (C10_view_wf, C10_history_view_wf), so the C01/C07/C17 theorems apply to it. '
              'COPY / PICKLE: the result has the same node count and kinds, the same line table and io list, the same connected pins at every position (exact equality can fail only by a trailing None: C10_copy_view_not_equal), '
              'the same names position by position and the same s_nodes names; hence for ANY value domain the gate-by-gate solutions coincide (C10_copy_solution, C10_pickle_solution). '
              'FORK ELIMINATION: with an id-based semantics proved equivalent to the netlist semantics of the view (C10_csol_iff_solution / C10_solution_iff_csol), eliminate_1to1_forks keeps io list, names, kinds and the set of interface '
              'nodes, removes only non-interface forks, every solution of the original is a solution of the result and every solution of the result extends to the original, agreeing at every input pin of every surviving node '
              '(C10_eliminate_function, C10_eliminate_solution_view): the observed function is unchanged. STATE ORDER: s_nodes names are a permutation with the port prefix unchanged (C10_eliminate_s_names[_perm]); that the ORDER can '
-             'change is a machine-checked witness (C10_eliminate_state_order_refuted = known finding D29) and a sufficient condition for keeping it is proved (C10_eliminate_order_kept, checker sound). Tied to the code by comparing, after every '
+             'change is a machine-checked witness (C10_eliminate_state_order_refuted = known finding D29) and a sufficient condition for keeping it is proved (C10_eliminate_order_kept, checker sound). LIBRARY CLAUSE (Properties/C10Lib.v, cell lists regenerated from techlib.py on every run): for EVERY cell definition of the five libraries the model of TechLib.__init__ builds the implementation circuit, a one-instance host is resolved with the model of resolve_tlib_cells, and Coq proves by evaluation, lifted to a statement over ALL input and state rows (C10_lib_function_meaning), that the result is consistent, keeps io list and s_nodes names, contains no library kind and computes at every connected output and next-state exactly what the implementation / the datasheet function of C19 computes -- with all pins connected (every name), with each single pin left unconnected (first name of each definition) and with no output connected (every name); the exceptions are exactly the known findings D15, D21, D22, and for every excepted instance the failure itself is a theorem (*_refuted). The models of the implementation circuits and of the resolved hosts are compared structurally with the real TechLib / resolve_tlib_cells for every definition on every run. Tied to the code by comparing, after every '
              'step of random / generated / witness histories, the model\'s view with the netlist rendered from the real Circuit and s_names with [n.name for n in c.s_nodes]; plus the differential streams: random circuits x '
              'copy/pickle/eliminate sequences (arbitrary node/line orders), random implementation shapes x connected-pin subsets x host state elements / host gates / permuted hosts, every cell definition of the five libraries x '
              'all pins / random pin subsets x all (or 32 random) input-state combinations; known findings D15, D21, D22, D29.',
